@@ -123,7 +123,7 @@ func (cr *cursor) ruleLB25(breakOp *breakOpportunity, triggerNumSequence bool) {
 	}
 	if (br0 == ucd.BreakPR || br0 == ucd.BreakPO) &&
 		(br1 == ucd.BreakOP || br1 == ucd.BreakHY) &&
-		cr.nextLine == ucd.BreakNU {
+		cr.nextLineSkipCM == ucd.BreakNU {
 		*breakOp = breakProhibited
 	}
 	// ( OP | HY ) × NU
@@ -309,20 +309,24 @@ func (cr *cursor) ruleLB7To4(breakOp *breakOpportunity) {
 
 // apply rule LB1 to resolve break classses AI, SG, XX, SA and CJ.
 // We use the default values specified in https://unicode.org/reports/tr14/#BreakingRules.
-func (cr *cursor) ruleLB1() {
-	switch cr.line {
+func (cr *cursor) ruleLB1() { cr.line = resolveLineBreakClass(cr.line, cr.r) }
+
+// resolveLineBreakClass returns the class to use for the rune r, with class [line],
+// according to rule LB1
+func resolveLineBreakClass(line lineBreakClass, r rune) lineBreakClass {
+	switch line {
 	case ucd.BreakAI, ucd.BreakSG, ucd.BreakXX:
-		cr.line = ucd.BreakAL
+		return ucd.BreakAL
 	case ucd.BreakSA:
-		generalCategory := ucd.LookupType(cr.r)
+		generalCategory := ucd.LookupType(r)
 		if generalCategory == unicode.Mn || generalCategory == unicode.Mc {
-			cr.line = ucd.BreakCM
-		} else {
-			cr.line = ucd.BreakAL
+			return ucd.BreakCM
 		}
+		return ucd.BreakAL
 	case ucd.BreakCJ:
-		cr.line = ucd.BreakNS
+		return ucd.BreakNS
 	}
+	return line
 }
 
 type numSequenceState uint8
@@ -415,6 +419,18 @@ func (cr *cursor) startIteration(text []rune, i int) {
 	// prevPrevLine and prevLine are handled in endIteration
 	cr.line = cr.nextLine // avoid calling LookupLineBreakClass twice
 	cr.nextLine = ucd.LookupLineBreakClass(cr.next)
+
+	// rule LB25 : (PR | PO) × ( OP | HY )? NU looks after the current rune;
+	// by rule LB9, the (CM | ZWJ)* following ( OP | HY ) must be skipped
+	cr.nextLineSkipCM = cr.nextLine
+	if (cr.prevLine == ucd.BreakPR || cr.prevLine == ucd.BreakPO) && (cr.line == ucd.BreakOP || cr.line == ucd.BreakHY) {
+		for j := i + 1; j < len(text); j++ {
+			cr.nextLineSkipCM = resolveLineBreakClass(ucd.LookupLineBreakClass(text[j]), text[j])
+			if cr.nextLineSkipCM != ucd.BreakCM && cr.nextLineSkipCM != ucd.BreakZWJ {
+				break
+			}
+		}
+	}
 }
 
 // end the current iteration, computing some of the properties
